@@ -39,6 +39,7 @@ MUTANTS = [
  ('C03', 'backmp11/detail/state_machine_base.hpp', r'on_exit\(final_event, get_fsm_argument\(\)\);\s*m_running = false;', 'on_exit(final_event, get_fsm_argument());', 'backmp11.stop', ''),
  ('C14', 'front/functor_row.hpp', r'\(Func::some_deferring_actions::value \? ::boost::msm::back::HANDLED_DEFERRED : ::boost::msm::back::HANDLED_TRUE \)', '(Func::some_deferring_actions::value ? ::boost::msm::back::HANDLED_TRUE : ::boost::msm::back::HANDLED_DEFERRED )', 'get_functor_return_value.2', ''),
  ('C01', 'backmp11/favor_compile_time.hpp', r'm_state_dispatch_tables\[constant\.value\.state_id\]\.add_transition_cell\(constant\.value\);', 'm_state_dispatch_tables[0].add_transition_cell(constant.value);', 'backmp11.favor_compile_time.dispatch_table.construct', ''),
+ ('C01', 'back/dispatch_table.hpp', r'(tofill_entries\[state_id\+1\] = call_no_transition;\s*\}\s*// case for internal transitions of this fsm)', r'tofill_entries[state_id] = call_no_transition;\n        }\n        // case for internal transitions of this fsm', 'back.dispatch_table.default_cells', ''),
 ]
 
 # harmless edits (renamed local, reordered independent statements, loop style, added comment): every check of the named properties must
